@@ -46,16 +46,29 @@ Record srv := mkSrv {
   so : opts;            (* self.options (may be changed by the user at any time) *)
   cid : Z;              (* self._client_id *)
   a_audio : st; a_control : st; a_buffer : st;
-  nodes : nid
+  nodes : nid;
+  sw_max : option Z;    (* self._status_watcher._max_logins: the login count the server reported (None before a reply) *)
+  inproc : bool         (* self._in_process *)
 }.
+
+Definition with_logins (o : opts) (l : Z) : opts :=
+  mkO (audio_buses o) (control_buses o) (buffers o) (input_channels o) (output_channels o)
+      (reserved_audio_buses o) (reserved_control_buses o) (reserved_buffers o) l (initial_node_id o).
+
+(* ServerStatusWatcher.max_logins:  self._max_logins or self.server.options.max_logins *)
+Definition eff_logins_of (sw : option Z) (o : opts) : Z :=
+  match sw with Some m => if m =? 0 then max_logins o else m | None => max_logins o end.
+Definition eff_logins (s : srv) : Z := eff_logins_of (sw_max s) (so s).
+(* the options as the allocator constructors see them: the login count is the status watcher's *)
+Definition eff_opts (s : srv) : opts := with_logins (so s) (eff_logins s).
 
 Definition get_alloc (s : srv) (k : kind) : st :=
   match k with KAudio => a_audio s | KControl => a_control s | KBuffer => a_buffer s end.
 Definition set_alloc (s : srv) (k : kind) (a : st) : srv :=
   match k with
-  | KAudio => mkSrv (so s) (cid s) a (a_control s) (a_buffer s) (nodes s)
-  | KControl => mkSrv (so s) (cid s) (a_audio s) a (a_buffer s) (nodes s)
-  | KBuffer => mkSrv (so s) (cid s) (a_audio s) (a_control s) a (nodes s)
+  | KAudio => mkSrv (so s) (cid s) a (a_control s) (a_buffer s) (nodes s) (sw_max s) (inproc s)
+  | KControl => mkSrv (so s) (cid s) (a_audio s) a (a_buffer s) (nodes s) (sw_max s) (inproc s)
+  | KBuffer => mkSrv (so s) (cid s) (a_audio s) (a_control s) a (nodes s) (sw_max s) (inproc s)
   end.
 
 Inductive serr := AllocErr (e : err) | UserIdTooLarge.
@@ -66,30 +79,45 @@ Arguments SRaise {A} e.
 Definition mk_alloc (o : opts) (k : kind) (c : Z) : res st :=
   let '(sz, p, off_) := alloc_args o k c in init sz p off_.
 
-(* _new_allocators(): node allocator first, then control + audio, then buffers *)
-Definition new_allocators (o : opts) (c : Z) : sres srv :=
+(* _new_allocators() for options o, status-watcher count sw, client id c: node allocator first, then control + audio,
+   then buffers; the per-client shares are computed with the status watcher's login count *)
+Definition new_allocators (o : opts) (sw : option Z) (ip : bool) (c : Z) : sres srv :=
+  let oe := with_logins o (eff_logins_of sw o) in
   match ninit c (initial_node_id o) with
   | None => SRaise UserIdTooLarge
   | Some n =>
-    match mk_alloc o KControl c with Raise e => SRaise (AllocErr e) | Ok ac =>
-    match mk_alloc o KAudio c with Raise e => SRaise (AllocErr e) | Ok aa =>
-    match mk_alloc o KBuffer c with Raise e => SRaise (AllocErr e) | Ok ab =>
-      SOk (mkSrv o c aa ac ab n)
+    match mk_alloc oe KControl c with Raise e => SRaise (AllocErr e) | Ok ac =>
+    match mk_alloc oe KAudio c with Raise e => SRaise (AllocErr e) | Ok aa =>
+    match mk_alloc oe KBuffer c with Raise e => SRaise (AllocErr e) | Ok ab =>
+      SOk (mkSrv o c aa ac ab n sw ip)
     end end end
   end.
 
-(* _set_client_id(value): ids outside 0 .. options.max_logins-1 are refused (logged), nothing changes *)
-Definition set_client_id (s : srv) (v : Z) : sres srv :=
-  if (v <? 0) || (max_logins (so s) <=? v) then SOk s else new_allocators (so s) v.
+(* _set_client_id(value): ids outside 0 .. N-1 are refused (logged), nothing changes.
+   gl = true : N = options.max_logins                       (the code of the snapshot)
+   gl = false: N = _status_watcher.max_logins               (proposed fix D7: the count the partitions are built with) *)
+Definition set_client_id (gl : bool) (s : srv) (v : Z) : sres srv :=
+  if (v <? 0) || ((if gl then max_logins (so s) else eff_logins s) <=? v) then SOk s
+  else new_allocators (so s) (sw_max s) (inproc s) v.
 
 Inductive sop :=
   | SAlloc (k : kind) (n c : Z)        (* AudioBus(n) / ControlBus(n) / Buffer, new_consecutive(n): allocator.alloc(n) *)
   | SFree (k : kind) (a : Z)           (* .free() of an object with index a *)
   | SNode                              (* _next_node_id() *)
   | SSetClient (v : Z)                 (* _set_client_id(v) *)
-  | SSetOpts (o : opts).               (* the user assigns options; allocators are rebuilt only by the next _set_client_id *)
+  | SSetOpts (o : opts)                (* the user assigns options; allocators are rebuilt only by the next _set_client_id *)
+  | SLogin (id : Z) (m : option Z).    (* ServerStatusWatcher._handle_login_done(id, max_logins): the reply to /notify *)
 
-Definition sstep (s : srv) (x : sop) : sres (srv * option Z) :=
+(* _handle_login_done: first the reported login count, then the granted client id *)
+Definition login_done (gl : bool) (s : srv) (id : Z) (m : option Z) : sres srv :=
+  let s1 := match m with
+            | Some x => if inproc s then s
+                        else mkSrv (so s) (cid s) (a_audio s) (a_control s) (a_buffer s) (nodes s) (Some x) (inproc s)
+            | None => s
+            end in
+  set_client_id gl s1 id.
+
+Definition sstep (gl : bool) (s : srv) (x : sop) : sres (srv * option Z) :=
   match x with
   | SAlloc k n c =>
       match alloc (get_alloc s k) n c with
@@ -102,17 +130,18 @@ Definition sstep (s : srv) (x : sop) : sres (srv * option Z) :=
       | Raise e => SRaise (AllocErr e)
       end
   | SNode => let '(n, x) := nalloc (nodes s) in
-             SOk (mkSrv (so s) (cid s) (a_audio s) (a_control s) (a_buffer s) n, Some x)
-  | SSetClient v => match set_client_id s v with SOk s' => SOk (s', None) | SRaise e => SRaise e end
-  | SSetOpts o => SOk (mkSrv o (cid s) (a_audio s) (a_control s) (a_buffer s) (nodes s), None)
+             SOk (mkSrv (so s) (cid s) (a_audio s) (a_control s) (a_buffer s) n (sw_max s) (inproc s), Some x)
+  | SSetClient v => match set_client_id gl s v with SOk s' => SOk (s', None) | SRaise e => SRaise e end
+  | SSetOpts o => SOk (mkSrv o (cid s) (a_audio s) (a_control s) (a_buffer s) (nodes s) (sw_max s) (inproc s), None)
+  | SLogin id m => match login_done gl s id m with SOk s' => SOk (s', None) | SRaise e => SRaise e end
   end.
 
-Fixpoint srun (s : srv) (h : list sop) : sres (srv * list (option Z)) :=
+Fixpoint srun (gl : bool) (s : srv) (h : list sop) : sres (srv * list (option Z)) :=
   match h with
   | [] => SOk (s, [])
-  | x :: r => match sstep s x with
+  | x :: r => match sstep gl s x with
               | SRaise e => SRaise e
-              | SOk (s1, y) => match srun s1 r with
+              | SOk (s1, y) => match srun gl s1 r with
                                | SRaise e => SRaise e
                                | SOk (s2, ys) => SOk (s2, y :: ys)
                                end
@@ -120,17 +149,32 @@ Fixpoint srun (s : srv) (h : list sop) : sres (srv * list (option Z)) :=
   end.
 
 (* ---- correspondence helpers -------------------------------------------------------------------- *)
-Definition kind_of (z : Z) : kind := if z =? 0 then KAudio else if z =? 1 then KControl else KBuffer.
+Definition params (a : st) : Z * Z * Z := (size a, pos a - off a, off a).
+Definition sobservation := (Z * option Z * ((Z * Z * Z) * (Z * Z * Z) * (Z * Z * Z)))%type.
+(* what the harness observes of a server after a control operation: client id, _max_logins, constructor arguments
+   (size, reserved, addr_offset) of the audio, control and buffer allocators *)
+Definition sobs (s : srv) : sobservation :=
+  (cid s, sw_max s, (params (a_audio s), params (a_control s), params (a_buffer s))).
+Definition p3_eqb (x y : Z * Z * Z) : bool :=
+  let '(a, b, c) := x in let '(a', b', c') := y in (a =? a') && (b =? b') && (c =? c').
+Definition optz_eqb (x y : option Z) : bool :=
+  match x, y with Some a, Some b => a =? b | None, None => true | _, _ => false end.
+Definition sobs_eqb (x y : sobservation) : bool :=
+  let '(c, w, (pa, pc, pb)) := x in let '(c', w', (pa', pc', pb')) := y in
+  (c =? c') && optz_eqb w w' && p3_eqb pa pa' && p3_eqb pc pc' && p3_eqb pb pb'.
 
-(* one allocator the real Server built: options at construction time, kind, client id, the constructor arguments
-   observed on the implementation, the allocator-level history and what the implementation produced *)
-Definition check_srv_seg (c : opts * Z * Z * (Z * Z * Z) * list op * list entry) : bool :=
-  let '(o, k, client, (sz, p, off_), ops, expected) := c in
-  let '(sz', p', off') := alloc_args o (kind_of k) client in
-  (sz =? sz') && (p =? p') && (off_ =? off') && check_case true ((sz, p, off_), ops, expected).
-
-(* _set_client_id(v) on a server with options o and client id c: resulting client id and "were the allocators rebuilt" *)
-Definition check_setclient (c : opts * Z * Z * (Z * bool)) : bool :=
-  let '(o, c0, v, (c1, rebuilt)) := c in
-  let refused := (v <? 0) || (max_logins o <=? v) in
-  if refused then (c1 =? c0) && negb rebuilt else (c1 =? v) && rebuilt.
+(* the control operations of one real server (client id changes, option changes, login replies) replayed on the model *)
+Fixpoint ctrl_trace (gl : bool) (s : srv) (h : list sop) : list sobservation :=
+  match h with
+  | [] => []
+  | x :: r => match sstep gl s x with
+              | SOk (s1, _) => sobs s1 :: ctrl_trace gl s1 r
+              | SRaise _ => []
+              end
+  end.
+Definition check_ctrl (gl : bool) (c : opts * Z * list sop * list sobservation) : bool :=
+  let '(o, c0, h, expected) := c in
+  match new_allocators o None false c0 with
+  | SOk s0 => list_eqb sobs_eqb (sobs s0 :: ctrl_trace gl s0 h) expected
+  | SRaise _ => false
+  end.
